@@ -129,6 +129,9 @@ func calQn(vrfValueRatio, stakeRatio *big.Rat) uint64 {
 	step := new(big.Rat).Quo(stakeRatio, maxQn)
 	r, _ := new(big.Rat).Quo(vrfValueRatio, step).Float64()
 	qn := uint64(math.Floor(r) + 1)
+	if qn > uint64(model.Param.MaxQN) {
+		qn = uint64(model.Param.MaxQN)
+	}
 	return qn
 }
 
